@@ -120,6 +120,12 @@ for _pid in ("C10", "C09", "C11", "C19"):
                                        "Gen.advance_head_is_code"]
     MODULES[_pid] = MODULES[_pid] + ["Boario.Properties.LifecycleThm"]
 
+# what recover() evaluates and how ledgers are rounded (Properties/RecoverThm.lean over the regenerated Gen/Recover.lean)
+for _pid in ("C09", "C13", "C10", "C08"):
+    THEOREMS[_pid] = THEOREMS[_pid] + ["Gen.recover_ledgers_is_code", "Gen.recover_elapsed_is_code", "Gen.recover_precision_is_code",
+                                       "Gen.precision_sources_is_code"]
+    MODULES[_pid] = MODULES[_pid] + ["Boario.Properties.RecoverThm"]
+
 # one Lean module per topic, so that a changed formula only breaks the theorems about it
 FORMULA_MODULE = {
     "Gen.overprod_is_code": "FormulasOverprod", "Gen.overprodPhase_is_code": "FormulasOverprod",
